@@ -559,6 +559,11 @@ func c03(c *Ctx) {
 	if st, err := os.Stat("/dev/shm"); err == nil && st.IsDir() && os.Getenv("TMPDIR") == "" {
 		os.Setenv("TMPDIR", "/dev/shm")
 	}
+	// C03_FIXED=1: the tree under test carries the proposed repair of VerifyNewConfirms; tell the model
+	// driver to run `verifyNewConfirmsFixed` (used only with VERIF_REPO=<scratch copy with the diff>).
+	if os.Getenv("C03_FIXED") != "" {
+		c.Op("mode fixed", "ok")
+	}
 	// ---- two_thirds_arith: the float expression of TwoThirdDeputyCount / IsConfirmEnough, all n < 65536 ----
 	for n := 0; n < 65536; n++ {
 		f := uint32(math.Ceil(float64(n) * 2.0 / 3.0))
